@@ -89,14 +89,19 @@ LAYOUT = ["sort_order", "transpose", "read", "filter", "sort"]          # calls 
 
 CAMPAIGNS.update({
     "coherence_walks": model_campaign(
-        "coherence_walks", palettes=IDONLY, heaps="std",
+        "coherence_walks", palettes=IDONLY, heaps="std", cap_quick=9000,
         quick=[ex(ph(ALLOPS, True, pick=60), ph(["probe"])),
                ex(ph(["filter", "remove_empty", "head"], pick=12), ph(["update_ids"], True), ph(["probe"])),
                ex(ph(["filter", "remove_empty", "head"], pick=12), ph(["add_metadata", "sort_order", "filter"], True, pick=20),
                   ph(["probe"])),                                   # operations on a shrunk / emptied table
                ex(ph(ALLOPS, pick=12), ph(ALLOPS, pick=5), ph(["probe"])),
-               ex(ph(ALLOPS, pick=8), ph(ALLOPS, pick=3), ph(ALLOPS, pick=3), ph(ALLOPS, pick=2), ph(["probe"]))],
+               ex(ph(ALLOPS, pick=8), ph(ALLOPS, pick=3), ph(ALLOPS, pick=3), ph(ALLOPS, pick=2), ph(["probe"])),
+               # narrow deep walks: 8 and 10 calls
+               ex(ph(ALLOPS, pick=5), *([ph(ALLOPS, pick=1)] * 7 + [ph(["probe"])])),
+               ex(ph(ALLOPS, True, pick=3), ph(ALLOPS, pick=2), *([ph(ALLOPS, True, pick=1)] * 8 + [ph(["probe"])]))],
         thorough=[ex(ph(ALLOPS, True), ph(["probe"])),
+                  ex(ph(ALLOPS, pick=12), ph(ALLOPS, pick=2), ph(ALLOPS, pick=2), *([ph(ALLOPS, True, pick=1)] * 9 + [ph(["probe"])])),
+                  ex(ph(ALLOPS, True, pick=25), *([ph(ALLOPS, pick=1)] * 13 + [ph(["probe"])])),
                   ex(ph(ALLOPS), ph(ALLOPS, True, pick=30), ph(["probe"])),
                   ex(ph(ALLOPS, pick=20), ph(ALLOPS, pick=6), ph(ALLOPS, pick=4), ph(ALLOPS, pick=3), ph(ALLOPS, pick=2),
                      ph(["probe"]))]),
